@@ -38,6 +38,16 @@ BIG_ARGS = dict(pids=["a", "b"], contents=[C_ONE], formats=[None, "c"], fake_cid
                 docs=[big_bytes(20001, b"<rev>1</rev>"), big_bytes(20001, b"<rev>2</rev>"), D_ONE])
 
 
+# the same calls under store algorithms whose digests have other lengths (document names are digests)
+def algo_args(algo):
+    return dict(pids=[P_A, "b"], contents=[C_ONE], formats=[None, "c", "d"], fake_cid=False, sym_dirs=False,
+                algorithm=algo)
+
+
+def algo_menu(w):
+    return metadata_menu(w) + [step.Delete(i) for i in range(w.NP)]
+
+
 def main(tier, replay_payload=None):
     w_args = universe(tier)
     if "" not in w_args["formats"]:
@@ -45,6 +55,9 @@ def main(tier, replay_payload=None):
     if tier == "thorough":
         w_args["docs"] = [b"", D_ONE, D_MULTI]
     parts = dict(main=(w_args, menu_fn), big=(BIG_ARGS, menu_fn))
+    other_algos = ["MD5", "SHA-1", "SHA-384", "SHA-512"] if tier == "thorough" else ["MD5", "SHA-512"]
+    for a_ in ["MD5", "SHA-1", "SHA-384", "SHA-512"]:
+        parts["algo-" + a_] = (algo_args(a_), algo_menu)
     if replay_payload is not None:
         return make_multi_replayer(parts)(replay_payload)
     run = report.Run("C11", tier, technique="pathsym inductive step on the metadata cells; z3 validity of meta' = model")
@@ -52,6 +65,10 @@ def main(tier, replay_payload=None):
     res = step.explore_steps(w_args, menu_fn)
     collect(run, res, MINE, w_args, menu_fn)
     collect(run, step.explore_steps(BIG_ARGS, menu_fn), MINE, BIG_ARGS, menu_fn, part="big")
+    for a_ in other_algos:
+        collect(run, step.explore_steps(algo_args(a_), algo_menu), MINE, algo_args(a_), algo_menu, part="algo-" + a_)
+    # two stores with different default namespaces (and algorithms) in one process, read back by another process
+    two_stores(run, "C11", ["metadata", "first-store-metadata", "call-failed"])
     run.functions = loader.function_lines(loader.load(), API_FUNCS)
     run.bounds = dict(pids=w_args["pids"], formats=w_args["formats"], documents=[len(d) for d in w_args.get("docs", [b"12345", b"1234567890123"])],
                       large_documents="two 20001-byte documents equal up to their last 12 bytes (4096-byte blocks)",
